@@ -332,6 +332,10 @@ def apply_step(da, a, step):
         return a.rechunk(_tt(step[1]), **kw)
     if op == "config":
         return a
+    if op in ("rechunk_spec", "rechunk_raw"):
+        from harness.props_ext import c27_consistency as CONS
+
+        return CONS.apply_rechunk_step(da, a, step)
     if op == "reduce":
         _, name, axis, split_every, keepdims = step
         axis = tuple(axis) if isinstance(axis, list) else axis
@@ -391,6 +395,12 @@ def build(da, prog):
         with warnings.catch_warnings():
             warnings.simplefilter("ignore")
             a = CAT.build_catalog(da, src[1], src[2])[src[3]]
+    elif src[0] == "blockwise":
+        from harness.props_ext import c27_consistency as CONS
+
+        with warnings.catch_warnings():
+            warnings.simplefilter("ignore")
+            a = CONS.build_blockwise(da, src[1])
     elif src[0] == "zeros":
         a = da.zeros(tuple(src[1]), chunks=_tt(src[2]), dtype=src[3] if len(src) > 3 else "i8")
     else:
@@ -668,6 +678,12 @@ def check_node(ctx, node, prog, phase, ArrayExpr, Alias, seen, light=False):
             ctx.count(("node-same-rechunk", cls, phase))
             if float(lo) != 0 or float(hi) != 0:
                 ctx.fail(f"same-rechunk:nonzero:{cls}", case, "a rechunk node whose chunks equal its input's chunks reports a non-zero transfer estimate")
+    # internal consistency: the estimate describes the layout change input chunks -> node.chunks (whatever the raw
+    # target operand, balance, dict / "auto" / int specs said before they were settled)
+    if cls in ("Rechunk", "TasksRechunk") and not unknown and node_graph_cost(node) <= HEAVY_TASKS:
+        from harness.props_ext import c27_consistency as CONS
+
+        CONS.rechunk_consistency(ctx, node, case, lo, hi)
     is_alias = False
     if not light and phase in ("lowered", "lowered-raw", "fused", "materialized") and cls != "FromArray" and node_graph_cost(node) <= HEAVY_TASKS:
         try:
@@ -734,6 +750,16 @@ def is_heavy(e, ArrayExpr):
         return any(isinstance(n, ArrayExpr) and node_graph_cost(n) > HEAVY_TASKS for n in walk_tolerant(e, ArrayExpr))
     except Exception:  # noqa: BLE001
         return True
+
+
+def check_raw(ctx, prog, y, seen):
+    """Metadata-only check of the RAW tree of `y` (no optimisation, no graph): used by the dense streams."""
+    from dask._task_spec import Alias
+    from dask_array._expr import ArrayExpr
+
+    for node in walk_tolerant(y.expr, ArrayExpr):
+        if isinstance(node, ArrayExpr):
+            check_node(ctx, node, prog, "raw", ArrayExpr, Alias, seen, True)
 
 
 def check_program(ctx, da, prog, y, seen):
@@ -827,6 +853,17 @@ def search_trees(ctx):
     ctx.notes["programs_under_config"] = under_cfg
     multistage_rechunk_stream(ctx, da, seen)
     catalog_stream(ctx, da, seen, CAT)
+    import sys
+
+    from harness.props_ext import c27_consistency as CONS
+
+    me = sys.modules[__name__]
+    t_ = ctx.elapsed()
+    CONS.blockwise_stream(ctx, da, me, seen)
+    ctx.notes["blockwise_stream_seconds"] = round(ctx.elapsed() - t_, 1)
+    t_ = ctx.elapsed()
+    CONS.rechunk_kw_stream(ctx, da, me, seen)
+    ctx.notes["rechunk_kw_stream_seconds"] = round(ctx.elapsed() - t_, 1)
     ctx.notes["distinct_nodes_checked"] = len(seen)
     coverage_report(ctx, CAT)
 
